@@ -45,7 +45,8 @@ class FuncInfo:
         self.all_params = [a.arg for a in args.posonlyargs + args.args]
         self.kwonly = [a.arg for a in args.kwonlyargs]
         self.decorators = [norm(d) for d in node.decorator_list]
-        self.is_property = "property" in self.decorators
+        self.is_cached_property = any(d in ("cached_property", "functools.cached_property") for d in self.decorators)
+        self.is_property = "property" in self.decorators or self.is_cached_property
         self.is_classmethod = "classmethod" in self.decorators
         self.is_static = "staticmethod" in self.decorators
         self.is_abstract = any(d.endswith("abstractmethod") for d in self.decorators)
